@@ -361,6 +361,9 @@ func c14Run(c *fw.Ctx) {
 	// sweep 1: merge semantics
 	blocks := []string{"default", "cluster", "both"}
 	extras := append([]string{"none", "bare"}, "allowed_groups", "skip_auth_regex", "timeout")
+	if c.Thorough() {
+		extras = append([]string{"none", "bare"}, c14Opts...) // an extra route stating each of the six options
+	}
 	envs := []string{"none", "domain", "group"}
 	drive(c, "merge", -1, func(x *explore.Exec, owned bool) {
 		d := c14Doc{Malform: "none"}
@@ -461,7 +464,7 @@ func init() {
 	fw.Register(&fw.Check{
 		ID:    "C14",
 		Level: "exploration",
-		Rule: "every document of a grammar, loaded through proxy.SetUpstreamConfigs for cluster `prod` with template variables in from/to/options: (merge) blocks {default only, cluster only, both} x options stated by the default block (all 64 subsets of groups, domains, addresses, skip_auth_regex, timeout, header_overrides) x options stated by the cluster block (64 subsets) x extra route {none, bare, stating groups / skip list / timeout} x deployment defaults {none, domain, group}; " +
+		Rule: "every document of a grammar, loaded through proxy.SetUpstreamConfigs for cluster `prod` with template variables in from/to/options: (merge) blocks {default only, cluster only, both} x options stated by the default block (all 64 subsets of groups, domains, addresses, skip_auth_regex, timeout, header_overrides) x options stated by the cluster block (64 subsets) x extra route {none, bare, stating groups / skip list / timeout (thorough: each of the six options)} x deployment defaults {none, domain, group}; " +
 			"(two-services) a second service of the same cluster that states no options, before or after the first, must resolve to the deployment defaults only; (fail-closed) route type {omitted, simple, rewrite, unknown} x malformation {none, bad skip regex, missing from, missing to, empty service, unbalanced rewrite regexp} x defaults x option shapes x extra route x a second service configured for another cluster only. " +
 			"Oracle: an error is always acceptable; otherwise every upstream has its service name, a resolved route, substituted templates, as many compiled skip patterns as listed, at least one allow rule, and every option equals the field-by-field reference merge (cluster block over default block over deployment default; extra route over its parent); " +
 			"distinct_nontrivial = distinct (blocks, subsets, extra, type, defaults, malformation, accepted?) documents",
